@@ -125,6 +125,17 @@ def hash_shard(config, seed, n_examples):
             stats.violations.append({"case": case, "key": "vector", "msg": "published vector of %s not reproduced (gadget ok: %s, reference ok: %s)" % (
                 config, got == VECTORS[config], refv == VECTORS[config])})
             return stats
+    # coefficient derivation of the subset-sum hash, index by index (rejection sampling: rare indices need many retries)
+    ncoef = 3000 if n_examples < 100 else 120000
+    lo = (seed % 5) * ncoef
+    for i in list(range(0, 600)) + list(range(lo, lo + ncoef)):
+        if gh.SHA512_prng(i) != ref_coeff(i, p):
+            case = {"config": config, "part": "coefficient", "index": i}
+            stats.violations.append({"case": case, "key": "coefficient",
+                                     "msg": "subset-sum coefficient #%d is %d, the documented derivation gives %d" % (i, gh.SHA512_prng(i), ref_coeff(i, p))})
+            return stats
+    stats.case({"config": config, "part": "coefficient", "range": [lo, lo + ncoef]}, True, ("ggh-coefficients",))
+    stats.extra["ggh_coefficients_compared"] = stats.extra.get("ggh_coefficients_compared", 0) + ncoef + 600
     counts = {}
 
     def elems():
@@ -311,6 +322,14 @@ def selection_shard(cases):
 def replay(case):
     if case.get("part") == "selection":
         return selection_case(case)
+    if case.get("part") == "coefficient":
+        import subprocess, sys
+        code = ("import sys; sys.path[:0]=[%r,%r]; from harness.checks import c20; from harness import env, recorder, backends; "
+                "recorder.P = backends.FIELDS[%r]; env.bind(c20.CONFIG_MODULE[%r]); import pysnark.ggh_hash as gh; "
+                "sys.exit(0 if gh.SHA512_prng(%d) == c20.ref_coeff(%d, recorder.P) else 1)" % (
+                    core.ROOT, os.environ.get("VERIF_REPO", "/repo"), case["config"], case["config"], case["index"], case["index"]))
+        r = subprocess.run([sys.executable, "-c", code])
+        return None if r.returncode == 0 else "subset-sum coefficient #%d differs from the documented derivation" % case["index"]
     st_ = hash_shard(case["config"], 1, 1)     # vectors only; value cases are replayed through the reference directly
     return "; ".join(v["msg"] for v in st_.violations) or None
 
